@@ -187,7 +187,7 @@ def signature(events, li, name):
     s, _ = history_of(events, li)
     if name == "CallImpliesAllowCall" and ev.get("kind") == "n":
         # a native method running without AllowCall made a call into a contract: the listed finding of C16
-        return {"kind": "native-calls-contract-without-allowcall", "method": "ContractManagement"}
+        return {"kind": "native-calls-contract-without-allowcall", "method": ev.get("nm") or "ContractManagement"}
     via = {"enter": ev.get("kind"), "eff": ev.get("e"), "mgmt": ev.get("op")}.get(ev["event"], ev["event"])
     return {"part": PART, "kind": KIND[name], "clause": name, "after": {"update": "update", "destroy": "destroy", "deploy": "deploy"}.get(
         last_change(events, s, li), "none"), "via": via, "rule": events[s].get("rule")}
